@@ -357,14 +357,334 @@ fn random_literal(r: &mut Rng) -> Vec<u8> {
     s
 }
 
+// ---- literals printed back in every syntactic position -------------------------------------
+// Every place where display.rs writes back a number the parser read: posting amount, operands of
+// value expressions (binary, unary, nested), lot price {..} / {{..}}, cost @ / @@, balance
+// assertion and assignment, the `format` line of a commodity directive.  Printed through the
+// three commands that print parsed entries: `format`, `primitive format`, `primitive flatten`
+// (the last one also with the entry in an included file).
+
+/// a literal for the print stream; `shape` is reported in the distribution
+fn print_literal(r: &mut Rng, allow_neg: bool) -> (Vec<u8>, &'static str) {
+    let mut s = Vec::new();
+    if allow_neg && r.chance(1, 4) {
+        s.push(b'-');
+    }
+    let group = |ip: &[u8], s: &mut Vec<u8>| {
+        let first = ((ip.len() - 1) % 3) + 1;
+        s.extend_from_slice(&ip[..first]);
+        for ch in ip[first..].chunks(3) {
+            s.push(b',');
+            s.extend_from_slice(ch);
+        }
+    };
+    let nonzero_lead = |r: &mut Rng, n: usize| {
+        let mut d = digits(r, n);
+        if d[0] == b'0' {
+            d[0] = b'1' + r.below(9) as u8;
+        }
+        d
+    };
+    let frac = |r: &mut Rng, s: &mut Vec<u8>| {
+        if r.chance(2, 3) {
+            let m = if r.chance(1, 5) { 12 } else { 4 };
+            let n = 1 + r.below(m) as usize;
+            s.push(b'.');
+            let mut f = digits(r, n);
+            if r.chance(1, 3) {
+                // trailing zeros are places too
+                let k = f.len();
+                f[k - 1] = b'0';
+            }
+            s.extend(f);
+        }
+    };
+    let shape = match r.below(12) {
+        0..=3 => {
+            let m = if r.chance(1, 4) { 20 } else { 6 };
+            let n = 4 + r.below(m) as usize;
+            let ip = nonzero_lead(r, n);
+            group(&ip, &mut s);
+            frac(r, &mut s);
+            "grouped"
+        }
+        4 | 5 => {
+            let m = if r.chance(1, 4) { 20 } else { 6 };
+            let n = 4 + r.below(m) as usize;
+            s.extend(nonzero_lead(r, n));
+            frac(r, &mut s);
+            "plain>=1000"
+        }
+        6 | 7 => {
+            let n = 1 + r.below(3) as usize;
+            s.extend(nonzero_lead(r, n));
+            frac(r, &mut s);
+            "small"
+        }
+        8 => {
+            s.extend_from_slice(*r.pick(&[&b"0"[..], b"0.00", b"0.0", b"0,000.05", b"0,012", b"000", b"0.10", b"1,000", b"1,000.00", b"999", b"1000"]));
+            "boundary"
+        }
+        9 => {
+            // exactly at the limits of a Decimal
+            s.extend_from_slice(*r.pick(&[
+                &b"79,228,162,514,264,337,593,543,950,335"[..],
+                b"79228162514264337593543950335",
+                b"7,922,816,251,426,433,759,354,395.0335",
+                b"0.0000000000000000000000000001",
+                b"79,228,162,514,264,337,593,543,950,336",
+                b"0.00000000000000000000000000001",
+            ]));
+            "limit"
+        }
+        10 => {
+            // leading zeros in front of a grouped or plain number
+            s.push(b'0');
+            let n = 3 + r.below(5) as usize;
+            let ip = digits(r, n);
+            if r.chance(1, 2) { group(&ip, &mut s) } else { s.extend(ip) }
+            frac(r, &mut s);
+            "leading-zero"
+        }
+        _ => {
+            // a literal of the scanner stream (possibly malformed), without interior signs
+            let mut l: Vec<u8> = random_literal(r).into_iter().filter(|c| *c != b'-').collect();
+            if !l.iter().any(|c| c.is_ascii_digit()) {
+                l.push(b'7');
+            }
+            s.extend(l);
+            "scanner-stream"
+        }
+    };
+    (s, shape)
+}
+
+struct PrintGen<'a> {
+    r: &'a mut Rng,
+    /// positions used by the text being built
+    used: Vec<String>,
+}
+
+impl PrintGen<'_> {
+    fn commodity(&mut self) -> &'static str {
+        *self.r.pick(&["USD", "EUR", "JPY", "CHF", "Fund", "$", "\u{20ac}"])
+    }
+    fn lit(&mut self, allow_neg: bool, position: &str) -> String {
+        let (l, shape) = print_literal(self.r, allow_neg);
+        self.used.push(format!("{}", position));
+        self.used.push(format!("shape:{}", shape));
+        String::from_utf8(l).unwrap()
+    }
+    /// operand inside parentheses
+    fn operand(&mut self, depth: usize, position: &str) -> String {
+        match self.r.below(if depth >= 3 { 4 } else { 6 }) {
+            0 | 1 => format!("{} {}", self.lit(false, position), self.commodity()),
+            2 => self.lit(false, &format!("{}:bare", position)),
+            3 => format!("-{} {}", self.lit(false, &format!("{}:negated", position)), self.commodity()),
+            4 => format!("({})", self.expr(depth + 1, position)),
+            _ => format!("-({})", self.expr(depth + 1, position)),
+        }
+    }
+    fn expr(&mut self, depth: usize, position: &str) -> String {
+        let n = 1 + self.r.below(3);
+        let mut s = self.operand(depth, position);
+        for _ in 1..n {
+            let op = *self.r.pick(&["+", "-", "*", "/"]);
+            s = format!("{} {} {}", s, op, self.operand(depth, position));
+        }
+        s
+    }
+    /// a value expression: an amount or a parenthesised expression
+    fn vexpr(&mut self, allow_neg: bool, position: &str) -> String {
+        if self.r.chance(2, 3) {
+            format!("{} {}", self.lit(allow_neg, position), self.commodity())
+        } else {
+            let pos = format!("{}:expr", position);
+            let e = self.expr(1, &pos);
+            let pad = if self.r.chance(1, 4) { " " } else { "" };
+            format!("({}{}{})", pad, e, pad)
+        }
+    }
+    fn posting(&mut self) -> String {
+        let acc = *self.r.pick(&["Assets:Bank", "Expenses:Food", "A", "Equity:Opening Balances", "Liabilities:Card:Visa Gold Extra Long Name Here"]);
+        let mark = *self.r.pick(&["", "", "* ", "! "]);
+        let mut s = format!("    {}{}", mark, acc);
+        let kind = self.r.below(10);
+        if kind == 0 {
+            return s + "\n";
+        }
+        if kind == 1 {
+            // assignment / assertion without an amount
+            let v = if self.r.chance(1, 2) { self.lit(true, "assignment:bare") } else { self.vexpr(true, "assignment") };
+            return format!("{}  = {}\n", s, v);
+        }
+        s.push_str("  ");
+        s.push_str(&self.vexpr(true, "amount"));
+        if self.r.chance(1, 3) {
+            let total = self.r.chance(1, 3);
+            let v = self.vexpr(true, if total { "lot{{}}" } else { "lot{}" });
+            s.push_str(&if total { format!(" {{{{{}}}}}", v) } else { format!(" {{{}}}", v) });
+            if self.r.chance(1, 3) {
+                s.push_str(" [2024/01/02]");
+            }
+            if self.r.chance(1, 4) {
+                s.push_str(" (lot note)");
+            }
+        }
+        if self.r.chance(1, 3) {
+            let total = self.r.chance(1, 3);
+            let v = self.vexpr(true, if total { "cost@@" } else { "cost@" });
+            s.push_str(&if total { format!(" @@ {}", v) } else { format!(" @ {}", v) });
+        }
+        if self.r.chance(1, 4) {
+            let v = if self.r.chance(1, 4) { self.lit(true, "assertion:bare") } else { self.vexpr(true, "assertion") };
+            s.push_str(&format!(" = {}", v));
+        }
+        s.push('\n');
+        if self.r.chance(1, 8) {
+            s.push_str("    ; note: on the posting\n");
+        }
+        s
+    }
+    fn txn(&mut self) -> String {
+        let mut s = String::from("2024/08/10");
+        if self.r.chance(1, 4) {
+            s.push_str("=2024/08/12");
+        }
+        s.push_str(*self.r.pick(&[" ", " * ", " ! "]));
+        if self.r.chance(1, 4) {
+            s.push_str("(ref) ");
+        }
+        s.push_str(*self.r.pick(&["Grocery", "Broker buy", "x"]));
+        s.push('\n');
+        if self.r.chance(1, 8) {
+            s.push_str("    ; :tag:\n");
+        }
+        for _ in 0..1 + self.r.below(3) {
+            s.push_str(&self.posting());
+        }
+        s
+    }
+    fn commodity_directive(&mut self) -> String {
+        let c = self.commodity();
+        let mut s = format!("commodity {}\n", c);
+        let n = self.r.below(4);
+        let fmt_at = self.r.below(n + 1);
+        for k in 0..=n {
+            if k == fmt_at {
+                let l = self.lit(true, "format");
+                // the commodity written after the number is free text for the parser
+                match self.r.below(8) {
+                    0 => s.push_str(&format!("    format {}\n", l)),
+                    1 => s.push_str(&format!("    format {} {}\n", l, self.commodity())),
+                    _ => s.push_str(&format!("    format {} {}\n", l, c)),
+                }
+                if self.r.chance(1, 6) {
+                    let l = self.lit(true, "format:second");
+                    s.push_str(&format!("    format {} {}\n", l, c));
+                }
+            } else {
+                s.push_str(*self.r.pick(&["    note a note\n", "    alias Other\n", "    ; comment\n"]));
+            }
+        }
+        s
+    }
+    fn text(&mut self) -> String {
+        let mut s = String::new();
+        if self.r.chance(1, 6) {
+            s.push_str("; top comment\n\n");
+        }
+        let m = if self.r.chance(1, 4) { 3 } else { 1 };
+        let n = 1 + self.r.below(m);
+        for k in 0..n {
+            if k > 0 {
+                s.push('\n');
+            }
+            if self.r.chance(1, 3) {
+                s.push_str(&self.commodity_directive());
+            } else {
+                s.push_str(&self.txn());
+            }
+        }
+        s
+    }
+}
+
+#[derive(Clone, Debug)]
+enum PObs {
+    Text(String),
+    Err(String),
+    Panic,
+}
+
+const PRINT_COMMANDS: [&str; 4] = ["format", "primitive format", "primitive flatten", "primitive flatten (included file)"];
+
+fn print_through(scratch: &crate::cli::Scratch, text: &str) -> Vec<PObs> {
+    let main = scratch.write("c07/main.ledger", text);
+    scratch.write("c07/sub/part.ledger", text);
+    let root = scratch.write("c07/root.ledger", "include sub/*.ledger\n");
+    let main = main.to_str().unwrap();
+    let root = root.to_str().unwrap();
+    let runs: [Vec<&str>; 4] = [
+        vec!["format", main],
+        vec!["primitive", "format", main],
+        vec!["primitive", "flatten", main],
+        vec!["primitive", "flatten", root],
+    ];
+    runs.iter()
+        .map(|args| {
+            let r = crate::cli::run(args);
+            if r.panicked {
+                PObs::Panic
+            } else if r.ok {
+                PObs::Text(r.stdout)
+            } else {
+                PObs::Err(r.stderr.chars().take(200).collect())
+            }
+        })
+        .collect()
+}
+
+fn printed(sh: &mut Shards, st: &mut Stats, scratch: &crate::cli::Scratch, text: &str, used: &[String], tag: &str) {
+    let obs = print_through(scratch, text);
+    let mut terms = Vec::new();
+    let mut reps = Vec::new();
+    for (k, o) in obs.iter().enumerate() {
+        st.eval(&(text.to_string(), k, "printed"), true);
+        st.count(&format!("printed:{}:{}", tag, PRINT_COMMANDS[k]));
+        st.count(match o {
+            PObs::Text(_) => "printed:impl:ok",
+            PObs::Err(_) => "printed:impl:err",
+            PObs::Panic => "printed:impl:panic",
+        });
+        let (term, j) = match o {
+            PObs::Text(t) => (format!("PText {}", coq::packed(t.as_bytes())), json!({ "printed": t })),
+            PObs::Err(e) => ("PErr".to_string(), json!({ "err": e })),
+            PObs::Panic => ("PPanic".to_string(), json!("panic")),
+        };
+        terms.push(format!("({})", term));
+        reps.push(json!({"property": "C07", "input": text, "command": PRINT_COMMANDS[k], "impl": j,
+                         "reproduce": format!("write the input to FILE and run `okane {} FILE`; compare every number with the one written", PRINT_COMMANDS[k].split(" (").next().unwrap())}));
+    }
+    for u in used {
+        st.count(&format!("printed-position:{}", u));
+    }
+    if let Some(PObs::Text(t)) = obs.first() {
+        if st.samples.len() < 12 && text.contains(',') {
+            st.sample(json!({"property": "C07", "input": text, "command": "format", "printed": t}), 12);
+        }
+    }
+    sh.push(format!("Printed {} [{}]", coq::packed(text.as_bytes()), terms.join(";")), reps);
+}
+
 pub fn run(o: &Opts) {
     let mut st = Stats::new();
     let mut sh = Shards::new(
         &o.out,
         o.shards,
-        "From Coq Require Import List NArith.\nFrom Okv Require Import Run.Classify_C07.\nImport ListNotations.\nOpen Scope N_scope.",
+        "From Coq Require Import List NArith Uint63.\nFrom Okv Require Import Run.Unpack Run.Classify_C07.\nImport ListNotations.\nOpen Scope N_scope.",
     );
-    st.rule = "the scanner directly and in eight syntactic positions through the real parser (amount, @ cost, @@ cost, lot price, assertion, assignment, format directive, parenthesised); exhaustive strings over {0,1,2,9,',','.','-'} up to a bounded length (and over all 13 symbols in the thorough tier) + seeded random literals up to 45+ digits concentrated at 2^96/2^127 + corpus; a case is the input string; non-trivial = has a digit and a non-digit, or more than 28 digits; distinct by input bytes".to_string();
+    st.rule = "the scanner directly and in eight syntactic positions through the real parser (amount, @ cost, @@ cost, lot price, assertion, assignment, format directive, parenthesised); literals printed back (generated transactions and commodity directives with literals of every shape as amount, expression operand, lot price, cost, assertion, assignment, format line; every literal of the text compared with the literal at the same place of what `format`, `primitive format`, `primitive flatten` print); exhaustive strings over {0,1,2,9,',','.','-'} up to a bounded length (and over all 13 symbols in the thorough tier) + seeded random literals up to 45+ digits concentrated at 2^96/2^127 + corpus; a case is the input string; non-trivial = has a digit and a non-digit, or more than 28 digits; distinct by input bytes".to_string();
     st.assumptions.push("input to PrettyDecimal::from_str is valid UTF-8 over the ASCII symbols 0-9 , . - plus a few other bytes in the corpus".to_string());
     // 1. corpus (past findings first)
     let corpus = [
@@ -421,6 +741,26 @@ pub fn run(o: &Opts) {
                 in_context(&mut sh, &mut st, &m);
             }
         }
+    }
+    // 4. literals printed back: every position of display.rs through the three print commands
+    let scratch = crate::cli::Scratch::new("c07");
+    let fixed = [
+        "commodity CHF\n    format 1,000.00 CHF\n",
+        "commodity JPY\n    note yen\n    format -1,234,567 JPY\n    alias Yen\n",
+        "2024/01/01 x\n    A  1,234.50 USD {1,000.10 EUR} [2024/01/02] @ 2,000.20 CHF = 12,345.00 USD\n    B\n",
+        "2024/01/01 x\n    A  (1,000 * 2,000.00 USD - -3,000 USD) {{4,000 EUR}} @@ (5,000.0 EUR + 6,000 EUR)\n    B  = 7,000.000\n",
+        "2024/01/01 x\n    A  1,2 USD\n    B\n",
+    ];
+    for t in fixed {
+        printed(&mut sh, &mut st, &scratch, t, &[], "fixed");
+    }
+    let mut r = Rng::new(o.seed, 77);
+    let n = if o.thorough { 12000 } else { 900 };
+    for _ in 0..n {
+        let mut g = PrintGen { r: &mut r, used: Vec::new() };
+        let text = g.text();
+        let used = g.used;
+        printed(&mut sh, &mut st, &scratch, &text, &used, "generated");
     }
     sh.finish(&st);
 }
